@@ -89,7 +89,26 @@ type hcScenario struct {
 	Seg         [4]int     `json:"seg"`      // segment size per direction: c->f, f->c, p->b, b->p (0 = whole writes)
 	DelayUs     [4]int     `json:"delay_us"` // per-segment latency per direction
 	Clients     []hcClient `json:"clients"`
+	// C07 only: route cache, two path rules (/up carries the path-level limit,
+	// everything else falls back to the server level), and a hot update of all
+	// four limits between two rounds of exchanges
+	CacheSize  int       `json:"cache_size"`
+	SplitPaths bool      `json:"split_paths"`
+	Reload     *hcReload `json:"reload"`
 }
+
+// hcReload is a hot update applied at a quiescent point (no request in flight):
+// a new Pipeline generation inherits from the old one, the mux is reloaded, and
+// the second round of exchanges is judged by the new limits.
+type hcReload struct {
+	SrvMax   int64      `json:"srv_max"`
+	PathMax  int64      `json:"path_max"`
+	PoolMax  int64      `json:"pool_max"`
+	ProxyMax int64      `json:"proxy_max"`
+	Clients  []hcClient `json:"clients"`
+}
+
+type hcLimits struct{ srv, path, pool, proxy int64 }
 
 const hcDefaultMax = 4 * 1024 * 1024
 
@@ -188,7 +207,21 @@ type hcChain struct {
 	backAddr string
 	byName   bool
 	panics   []string
+	lim      hcLimits
+	mapper   *hcMapper
+	gen      int
 }
+
+// reqLimit is the effective clientMaxBodySize for an exchange under the current generation.
+func (c *hcChain) reqLimit(ex *hcExchange) int64 {
+	if c.sc.SplitPaths && ex.Path != "/up" {
+		return hcEffective(0, c.lim.srv)
+	}
+	return hcEffective(c.lim.path, c.lim.srv)
+}
+
+// respLimit is the effective serverMaxBodySize under the current generation.
+func (c *hcChain) respLimit() int64 { return hcEffective(c.lim.pool, c.lim.proxy) }
 
 func hcStack() string {
 	lines := strings.Split(string(debug.Stack()), "\n")
@@ -209,6 +242,85 @@ func hcYAMLInt(name string, v int64) string {
 		return ""
 	}
 	return fmt.Sprintf("%s: %d\n", name, v)
+}
+
+func (c *hcChain) pipeYAML(lim hcLimits) string {
+	sc := c.sc
+	var flow, filters strings.Builder
+	if sc.ReqAdaptor != "" {
+		flow.WriteString("- filter: reqadaptor\n")
+		fmt.Fprintf(&filters, "- name: reqadaptor\n  kind: RequestAdaptor\n  %s: gzip\n", sc.ReqAdaptor)
+	}
+	flow.WriteString("- filter: proxy\n")
+	filters.WriteString("- name: proxy\n  kind: Proxy\n")
+	if lim.proxy != 0 {
+		fmt.Fprintf(&filters, "  serverMaxBodySize: %d\n", lim.proxy)
+	}
+	if sc.Compress >= 0 {
+		fmt.Fprintf(&filters, "  compression:\n    minLength: %d\n", sc.Compress)
+	}
+	filters.WriteString("  pools:\n  - loadBalance:\n      policy: roundRobin\n")
+	if lim.pool != 0 {
+		fmt.Fprintf(&filters, "    serverMaxBodySize: %d\n", lim.pool)
+	}
+	if sc.MemCache {
+		filters.WriteString("    memoryCache:\n      expiration: 10m\n      maxEntryBytes: 100000\n      codes: [200, 201]\n      methods: [GET, POST]\n")
+	}
+	if sc.Retry > 1 {
+		filters.WriteString("    retryPolicy: retry\n    failureCodes: [502]\n")
+	}
+	fmt.Fprintf(&filters, "    servers:\n    - url: http://%s\n", c.backAddr)
+	if sc.KeepHost {
+		filters.WriteString("      keepHost: true\n")
+	}
+	switch sc.RespAdaptor {
+	case "compress", "decompress":
+		flow.WriteString("- filter: respadaptor\n")
+		fmt.Fprintf(&filters, "- name: respadaptor\n  kind: ResponseAdaptor\n  %s: gzip\n", sc.RespAdaptor)
+	case "body":
+		flow.WriteString("- filter: respadaptor\n")
+		filters.WriteString("- name: respadaptor\n  kind: ResponseAdaptor\n  body: \"<replaced-by-adaptor>\"\n")
+	}
+	pyaml := "name: pipe\nkind: Pipeline\nflow:\n" + flow.String() + "filters:\n" + filters.String()
+	if sc.Retry > 1 {
+		pyaml += fmt.Sprintf("resilience:\n- name: retry\n  kind: Retry\n  maxAttempts: %d\n  waitDuration: 10ms\n", sc.Retry)
+	}
+	return pyaml
+}
+
+func (c *hcChain) serverYAML(lim hcLimits) string {
+	sc := c.sc
+	syaml := "name: front\nkind: HTTPServer\nport: 10080\nkeepAlive: true\nhttps: false\n" +
+		hcYAMLInt("clientMaxBodySize", lim.srv)
+	if sc.CacheSize > 0 {
+		syaml += fmt.Sprintf("cacheSize: %d\n", sc.CacheSize)
+	}
+	if sc.SplitPaths {
+		return syaml + "rules:\n- paths:\n  - path: /up\n    backend: pipe\n" + hcYAMLInt("    clientMaxBodySize", lim.path) +
+			"  - pathPrefix: /\n    backend: pipe\n"
+	}
+	return syaml + "rules:\n- paths:\n  - pathPrefix: /\n    backend: pipe\n" + hcYAMLInt("    clientMaxBodySize", lim.path)
+}
+
+// hotUpdate installs new limits the way the supervisor does: a new Pipeline
+// generation inherits from the running one, then the mux is reloaded.
+func (c *hcChain) hotUpdate(lim hcLimits) error {
+	pspec, err := supervisor.NewSpec(c.pipeYAML(lim))
+	if err != nil {
+		return fmt.Errorf("pipeline spec: %v", err)
+	}
+	sspec, err := supervisor.NewSpec(c.serverYAML(lim))
+	if err != nil {
+		return fmt.Errorf("server spec: %v", err)
+	}
+	np := &pipeline.Pipeline{}
+	np.Inherit(pspec, c.pipe, c.mapper)
+	c.pipe = np
+	c.mapper.m["pipe"] = np
+	c.mux.reload(sspec, c.mapper)
+	c.lim = lim
+	c.gen++
+	return nil
 }
 
 func hcNewChain(r *sim.Run, sc *hcScenario) (*hcChain, error) {
@@ -265,59 +377,20 @@ func hcNewChain(r *sim.Run, sc *hcScenario) (*hcChain, error) {
 	c.backend = &http.Server{Handler: http.HandlerFunc(c.backendHandler)}
 	go c.backend.Serve(bl)
 
-	// pipeline
-	var flow, filters strings.Builder
-	if sc.ReqAdaptor != "" {
-		flow.WriteString("- filter: reqadaptor\n")
-		fmt.Fprintf(&filters, "- name: reqadaptor\n  kind: RequestAdaptor\n  %s: gzip\n", sc.ReqAdaptor)
-	}
-	flow.WriteString("- filter: proxy\n")
-	filters.WriteString("- name: proxy\n  kind: Proxy\n")
-	if sc.ProxyMax != 0 {
-		fmt.Fprintf(&filters, "  serverMaxBodySize: %d\n", sc.ProxyMax)
-	}
-	if sc.Compress >= 0 {
-		fmt.Fprintf(&filters, "  compression:\n    minLength: %d\n", sc.Compress)
-	}
-	filters.WriteString("  pools:\n  - loadBalance:\n      policy: roundRobin\n")
-	if sc.PoolMax != 0 {
-		fmt.Fprintf(&filters, "    serverMaxBodySize: %d\n", sc.PoolMax)
-	}
-	if sc.MemCache {
-		filters.WriteString("    memoryCache:\n      expiration: 10m\n      maxEntryBytes: 100000\n      codes: [200, 201]\n      methods: [GET, POST]\n")
-	}
-	if sc.Retry > 1 {
-		filters.WriteString("    retryPolicy: retry\n    failureCodes: [502]\n")
-	}
-	fmt.Fprintf(&filters, "    servers:\n    - url: http://%s\n", c.backAddr)
-	if sc.KeepHost {
-		filters.WriteString("      keepHost: true\n")
-	}
-	switch sc.RespAdaptor {
-	case "compress", "decompress":
-		flow.WriteString("- filter: respadaptor\n")
-		fmt.Fprintf(&filters, "- name: respadaptor\n  kind: ResponseAdaptor\n  %s: gzip\n", sc.RespAdaptor)
-	case "body":
-		flow.WriteString("- filter: respadaptor\n")
-		filters.WriteString("- name: respadaptor\n  kind: ResponseAdaptor\n  body: \"<replaced-by-adaptor>\"\n")
-	}
-	pyaml := "name: pipe\nkind: Pipeline\nflow:\n" + flow.String() + "filters:\n" + filters.String()
-	if sc.Retry > 1 {
-		pyaml += fmt.Sprintf("resilience:\n- name: retry\n  kind: Retry\n  maxAttempts: %d\n  waitDuration: 10ms\n", sc.Retry)
-	}
+	c.lim = hcLimits{sc.SrvMax, sc.PathMax, sc.PoolMax, sc.ProxyMax}
+	pyaml := c.pipeYAML(c.lim)
 	pspec, err := supervisor.NewSpec(pyaml)
 	if err != nil {
 		return nil, fmt.Errorf("pipeline spec: %v\n%s", err, pyaml)
 	}
 	mapper := &hcMapper{m: map[string]context.Handler{}}
+	c.mapper = mapper
 	c.pipe = &pipeline.Pipeline{}
 	c.pipe.Init(pspec, mapper)
 	mapper.m["pipe"] = c.pipe
 
 	// front server: real mux under a real http.Server
-	syaml := "name: front\nkind: HTTPServer\nport: 10080\nkeepAlive: true\nhttps: false\n" +
-		hcYAMLInt("clientMaxBodySize", sc.SrvMax) +
-		"rules:\n- paths:\n  - pathPrefix: /\n    backend: pipe\n" + hcYAMLInt("    clientMaxBodySize", sc.PathMax)
+	syaml := c.serverYAML(c.lim)
 	sspec, err := supervisor.NewSpec(syaml)
 	if err != nil {
 		return nil, fmt.Errorf("server spec: %v\n%s", err, syaml)
